@@ -1840,7 +1840,13 @@ class Process:
         try:
             return tmap[tty_nr]
         except KeyError:
-            return None
+            if tty_nr == 0:
+                # no controlling terminal
+                return None
+            # The map is cached: the terminal may have been created
+            # after it was built (e.g. a new pseudo-terminal).
+            _psposix.get_terminal_map.cache_clear()
+            return _psposix.get_terminal_map().get(tty_nr)
 
     # May not be available on old kernels.
     if os.path.exists(f"/proc/{os.getpid()}/io"):
